@@ -325,22 +325,36 @@ def r3_connectives(chk: Check):
         table = {"self.operator == 'and'": ("and", True), "self.operator == 'or'": ("and", False), "self.y.filter(information)": ("y", True), "self.x.filter(information)": ("x", True)}
         return table.get(t)
 
-    # the return expressions are boolean combinations: decompose by hand
-    rets = {}
+    # truth table over (operator is `and`, left operand, right operand): every path returns a value whose truth is the conjunction / disjunction
+    from ..dataflow import truth_of
+
     rd3 = ReachingDefs(g)
-    for n in g.live:
-        if n.kind == "stmt" and isinstance(n.ast, ast.Return):
-            gs = [(src(t.ast), pol) for t, pol in g.guards(n) if t.kind == "test"]
-            rets[tuple(gs)] = rd3.subst(n.ast.value, n)
-    ok = len(rets) == 2
-    for gs, v in rets.items():
-        is_and = (("self.operator == 'and'", True),) == gs
-        if not isinstance(v, ast.BoolOp) or len(v.values) != 2:
-            ok = False
-            continue
-        parts = {src(x) for x in v.values}
-        ok = ok and parts == {"self.y.filter(information)", "self.x.filter(information)"} and isinstance(v.op, ast.And if is_and else ast.Or)
-    chk.require(ok, "cli.filter:LogicExpr.filter", f"LogicExpr.filter must be the conjunction of both sides for `and` and the disjunction otherwise ({[(gs, src(v)) for gs, v in rets.items()]})", chk.loc(f.module, f.node))
+    TEXTS = {"self.operator == 'and'": "and", "self.y.filter(information)": "y", "self.x.filter(information)": "x"}
+
+    def classify(n):
+        t = rd3.canon(n.ast, n)
+        if t == "self.operator == 'or'":
+            return ("and", False)
+        return (TEXTS[t], True) if t in TEXTS else None
+
+    bad = []
+    for is_and, y, x in itertools.product([True, False], repeat=3):
+        sc = {"and": is_and, "y": y, "x": x}
+        want = (y and x) if is_and else (y or x)
+
+        def stop(n, sc=sc):
+            if n.kind == "stmt" and isinstance(n.ast, ast.Return) and n.ast.value is not None:
+                v = truth_of(rd3.subst(n.ast.value, n), lambda t: (TEXTS[t], True) if t in TEXTS else None, sc)
+                return f"returns {v}"
+            if n is g.exit:
+                return "returns None"
+            return None
+
+        for o in walk_table(g, g.entry, classify, sc, lambda n: [], stop):
+            unk = [u[0] for u in o.unknown if u[2] is None]
+            if o.end != f"returns {want}" or unk:
+                bad.append(f"operator {'and' if is_and else 'or'}, left={y}, right={x}: {o.end}{' depending on ' + str(unk) if unk else ''}")
+    chk.require(not bad, "cli.filter:LogicExpr.filter", f"LogicExpr.filter must be the conjunction of both sides for `and` and the disjunction otherwise; found {bad[:3]}", chk.loc(f.module, f.node))
     s = tree.func("cli.filter", "LogicExpr.summary")
     t = src(s.node)
     ok = "v = tokens[1]" in t and "v.x = tokens[0]" in t and "for token in tokens[2:]:" in t and "token.x = v" in t and "v = token" in t
